@@ -464,6 +464,32 @@ def online():
         path=UTILS, qualname='OnlineBoundedGather2.call', label='OnlineBoundedGather2.call[after-shutdown]', types={'f': 'U'}, setup=setup_call,
         ensures=[], raises={'PoolShutdownError': True},
     ), 'online-call-after-shutdown'))
+
+    # -- call() on an open pool: the job is registered under a key of its own
+    def create_task(eng, st, args, kw, node):
+        st.env['n_tasks'] = st.env['n_tasks'] + 1
+        return z3.Const('new_task', pyvc.U)
+
+    out.append((Contract(
+        path=UTILS, qualname='OnlineBoundedGather2.call', label='OnlineBoundedGather2.call[open]', types={'f': 'U'},
+        self_fields={'_pending': 'Map[int, U]', '_counter': 'int', '_done_event': 'U', '_sema': 'U', '_exception': 'U'},
+        setup=lambda eng, st: st.env.__setitem__('new_task', z3.Const('new_task', pyvc.U)),
+        # representation invariant of the pending table: every key was issued by an earlier call, i.e. lies below the counter
+        requires=['forall(lambda k: implies(k in self._pending, 0 <= k < self._counter))', 'self._counter >= 0'],
+        ghost_init={'n_tasks': '0', 'n_clear': '0'},
+        calls={'asyncio.create_task': create_task, 'run_and_cleanup': lambda eng, st, args, kw, node: z3.Const('coro', pyvc.U),
+               'self._done_event.clear': lambda eng, st, args, kw, node: st.env.__setitem__('n_clear', st.env['n_clear'] + 1)},
+        ensures=[
+            ('registering-a-job-adds-an-entry-and-never-replaces-one', 'len(self._pending) == len(old(self._pending)) + 1'),
+            ('every-job-registered-before-is-still-registered-with-its-task', 'forall(lambda k: implies(k in old(self._pending), k in self._pending and self._pending[k] == old(self._pending)[k]))'),
+            ('the-new-task-is-registered-and-returned', 'result == new_task and exists(lambda k: k in self._pending and not (k in old(self._pending)) and self._pending[k] == new_task)'),
+            ('exactly-one-task-is-started', 'n_tasks == 1'),
+            ('the-pool-is-no-longer-done', 'n_clear == 1'),
+            ('keys-stay-below-the-counter', 'forall(lambda k: implies(k in self._pending, 0 <= k < self._counter))'),
+        ],
+        raises={},
+        canaries=[('never-registers', 'len(self._pending) == len(old(self._pending))')],
+    ), 'online-call-open'))
     return out
 
 
